@@ -110,4 +110,31 @@ Process(t, mas, paid) ==
                               ELSE [t |-> nt, persisted |-> FALSE, paid |-> r.paid, hooks |-> hooks]
 
 ProcessTop(t, paid) == Process(t, "none", paid)
+
+\* open findings F8 / F16: a SQL materialization whose upstream tree is rebuilt by
+\* process() (it contains a transfer, or a chain with a statically empty branch)
+RECURSIVE Rebuilt(_)
+Rebuilt(t) ==
+    CASE t.k = "leaf" -> FALSE
+      [] t.k = "un"   -> Rebuilt(t.t)
+      [] t.k = "bin"  -> Rebuilt(t.l) \/ Rebuilt(t.r) \/ (t.op.o = "chain" /\ (MaxR(t.l) = 0 \/ MaxR(t.r) = 0))
+      [] t.k = "xfer" -> TRUE
+      [] t.k = "mat"  -> Rebuilt(t.t)
+      [] t.k = "sel"  -> Rebuilt(t.skip)
+KF8Tree(t) == \E n \in Nodes(t) : n.k = "mat" /\ KindOf(Eng(n)) = "sql" /\ Rebuilt(n.t)
+
+\* the tree with the payload state of every transfer / materialization made explicit
+\* (what the harness reads off the real relation objects)
+RECURSIVE Flagged(_, _)
+Flagged(t, paid) ==
+    CASE t.k = "leaf" -> t
+      [] t.k = "un"   -> Un(t.op, Flagged(t.t, paid))
+      [] t.k = "bin"  -> Bin(t.op, Flagged(t.l, paid), Flagged(t.r, paid))
+      [] t.k = "xfer" -> WithP(Xfer(t.dest, Flagged(t.t, paid)), HasPayload(t, paid))
+      [] t.k = "mat"  -> WithP(Mat(t.name, Flagged(t.t, paid)), HasPayload(t, paid))
+      [] t.k = "sel"  -> [k |-> "sel", sort |-> t.sort, proj |-> t.proj, dedup |-> t.dedup, a |-> t.a, b |-> t.b,
+                          skip |-> Flagged(t.skip, paid), t |-> Flagged(t.t, paid)]
+
+\* marker nodes that hold a payload
+PaidNodes(t, paid) == {n \in Nodes(t) : n.k \in {"xfer", "mat"} /\ HasPayload(n, paid)}
 =============================================================================
